@@ -45,7 +45,7 @@ func (rg *c04rig) setup() {
 		syms = append(syms, string(r))
 	}
 	sort.Strings(syms)
-	skip := map[string]bool{"run-fn-for": true, "x": true, "_PACKAGES_": true, "pan!": true, "pans!": true, "boom!": true, "sentinel": true}
+	skip := map[string]bool{"run-fn-for": true, "x": true, "_PACKAGES_": true, "pan!": true, "pans!": true, "boom!": true, "boomw!": true, "rawpan!": true, "sentinel": true}
 	for _, s := range syms {
 		if !skip[s] {
 			rg.symbols = append(rg.symbols, s)
@@ -239,11 +239,13 @@ func init() {
 			"(fn [& a] 1)", "(with-meta (fn [& a] 1) {:m 1})", "^{:m 1} (fn [& a] 1)", "list", "(with-meta list {:m 1})", "inc",
 			"(fn [& a] (throw {:c 1}))", "(fn [& a] (throw [1 2]))", "(fn [& a] (throw (list 1)))", "(with-meta (fn [& a] (throw #{1})) {:m 1})",
 			"(fn [& a] (throw nil))", "(fn [a] a)", ":k", "{:a 1}", "nil", "5", "(atom 1)", "(defmacro zq (fn [& a] 1))",
+			// functions whose (fn ..) form has no source position: built by eval of a constructed list, by quasiquote
+			"(eval (list (quote fn) [(quote a)] (quote a)))", "(eval `(fn [b#] b#))", "(with-meta (eval (list (quote fn) [(quote a) (quote b)] 1)) {:m 1})",
 		}
 		callers := []string{
 			"(@)", "(@ 1)", "(apply @ [1])", "(apply @ 1 [2])", "(map @ [1 2])", "(filter @ [1 2])", "(reduce @ 0 [1 2])", "(some @ [1 2])", "(every? @ [1 2])",
 			"(swap! (atom 1) @)", "(swap! (atom 1) @ 2)", "(deref (future-call @))", "(deref (future (@ 1)))", "(do (def fu (future-call @)) (future-cancel fu) (try (deref fu) (catch e 1)))",
-			"(do (defmacro zm @) (zm 1))", "(do (defmacro zm @) (macroexpand (quote (zm 1))))", "(do (defmacro zm @) (try (zm 1) (catch e e)))",
+			"(do (defmacro zm @) (zm 1))", "(do (defmacro zm @) (zm))", "(do (defmacro zm @) (zm 1 2 3))", "(apply @ [])", "(apply @ [1 2 3])", "(map @ [1] [2] [3])", "(do (defmacro zm @) (macroexpand (quote (zm 1))))", "(do (defmacro zm @) (try (zm 1) (catch e e)))",
 			"(update {:a 1} :a @)", "(update-in {:a {:b 1}} [:a :b] @)", "(sort-by @ [2 1])", "((comp @ @) 1)", "((partial @ 1) 2)",
 			"(try (@ 1) (catch e (throw e)))", "(try (@ 1) (catch e (throw (conj e 2))))", "(try (@ 1) (catch e (throw e)) (finally 1))",
 			"(try (try (@ 1) (catch e (throw e))) (catch e2 e2))", "(try (@ 1) (finally (@ 2)))", "(try (throw (@ 1)) (catch e (throw e)))",
@@ -251,7 +253,7 @@ func init() {
 		}
 		fcalls := &vf.Family{
 			Name:   "function-values-x-callers",
-			Bounds: fmt.Sprintf("%d function-like values (closures, with metadata through with-meta and the ^ reader macro, builtins, closures throwing maps / vectors / lists / sets / nil, keywords, maps, non-functions, a macro) placed in %d calling contexts (direct call, apply, map, filter, reduce, swap!, future-call / future and deref, cancelled future, defmacro + call / macroexpand, update, update-in, comp, partial, try handlers that re-throw what they caught, finally, with-meta, printing, =)", len(fvals), len(callers)),
+			Bounds: fmt.Sprintf("%d function-like values (closures, with metadata through with-meta and the ^ reader macro, closures without a source position (made by eval of a constructed form), builtins, closures throwing maps / vectors / lists / sets / nil, keywords, maps, non-functions, a macro) placed in %d calling contexts (direct call, apply, map, filter, reduce, swap!, future-call / future and deref, cancelled future, defmacro + call with the right and with wrong argument counts / macroexpand, update, update-in, comp, partial, try handlers that re-throw what they caught, finally, with-meta, printing, =)", len(fvals), len(callers)),
 			Setup:  setup,
 			N:      func(t string) int64 { tier = t; return int64(len(fvals) * len(callers)) },
 			Describe: func(i int64) string {
